@@ -74,7 +74,12 @@ void env_probe(const char *tag, const char *setting)
                mps <= (64u << 20) && msp <= (64u << 20) && mms <= 1u << 16 && mmd <= 1u << 16 &&
                g->huge_page_size <= (1u << 30) && g->sys_page_size >= 1024 &&
                g->sys_page_size <= (1u << 20) && g->key_table_size <= 1u << 16 &&
-               g->max_xstreams <= 1 << 16;
+               g->max_xstreams <= 1 << 16 &&
+               /* a scheduler looks at its finish request only every sched_event_freq
+                * iterations: beyond ~10^6 ABT_finalize takes seconds to minutes, which is
+                * documented behaviour, not a parse result - such settings are parsed and
+                * compared but not run */
+               g->sched_event_freq <= (1u << 20);
     size_t expect_stack = g->thread_stacksize;
     free(g);
     if (!sane) {
